@@ -84,6 +84,7 @@ class Ctx:
         self.violation_counts: Counter = Counter()
         self.notes: Dict[str, Any] = {}
         self.t0 = time.time()
+        self.crng = self.rng
         self.phase: Optional[str] = None
         self.case: Any = None
 
@@ -123,6 +124,13 @@ class Ctx:
 
     def note(self, key: str, value: Any) -> None:
         self.notes[key] = jsonable(value)
+
+    def case_rng(self, case: Dict[str, Any]) -> random.Random:
+        """randomness used INSIDE the judgement of one case (schedules, sampled assignments, ...) comes from a seed stored in the case itself,
+        so that `--replay` re-runs exactly the same thing"""
+        seed = case.setdefault("rng_seed", self.rng.randrange(1 << 30))
+        self.crng = random.Random(f"case/{seed}")
+        return self.crng
 
     def set_case(self, phase: str, case: Any) -> None:
         self.phase = phase
